@@ -741,6 +741,165 @@ macro_rules! cfgs {
     }};
 }
 
+// ---------------------------------------------------------------------------
+// Part V: records of EVERY type. For every value of the shared generator's
+// compact menu (all record types; mc::rgen gives the library value together
+// with an independent reference RDATA and the position of every embedded
+// name) in three contexts on every target x compressor configuration.
+// ---------------------------------------------------------------------------
+
+/// Compare the RDATA at `pos..pos+len` of `msg` with the reference: literal
+/// octets must be identical, names (possibly compressed) must read back as
+/// the same labels.
+fn rdata_reads_back(msg: &[u8], pos: usize, len: usize, v: &mc::rgen::Value) -> Result<(), String> {
+    let mut cursor = pos;
+    let mut ri = 0usize;
+    let mut names = v.names.clone();
+    names.sort();
+    let mut ptrs = Vec::new();
+    for (off, nlen) in names {
+        let lit = &v.wire[ri..off];
+        if msg.get(cursor..cursor + lit.len()) != Some(lit) {
+            return Err(format!("octets {}..{} of the RDATA differ from what was pushed", ri, off));
+        }
+        cursor += lit.len();
+        let (got, after) = read_name(msg, cursor, &mut ptrs).map_err(|e| format!("name at RDATA offset {off}: {e}"))?;
+        let (want, _) = read_name(&v.wire[off..off + nlen], 0, &mut Vec::new()).map_err(|e| format!("reference name: {e}"))?;
+        if !mc::wire::labels_eq_ci(&got, &want) {
+            return Err(format!("name at RDATA offset {off} reads back as a different name"));
+        }
+        cursor = after;
+        ri = off + nlen;
+    }
+    let lit = &v.wire[ri..];
+    if msg.get(cursor..cursor + lit.len()) != Some(lit) {
+        return Err(format!("octets {}.. of the RDATA differ from what was pushed", ri));
+    }
+    cursor += lit.len();
+    if cursor != pos + len {
+        return Err(format!("RDLENGTH {} but the data pushed occupies {} octets", len, cursor - pos));
+    }
+    Ok(())
+}
+
+fn part_values<T: Composer + Clone + Send + Sync>(env: &Env, cfg: &Cfg<T>, vals: &[mc::rgen::Value]) {
+    let sp = env.sh.sp;
+    let ctx = env.sh.ctx;
+    vals.par_iter().for_each(|v| {
+        for context in 0..3usize {
+            let res = guard(|| -> Result<(), (String, String)> {
+                let mut b: B<T> = B::Q(MessageBuilder::from_target((cfg.make)()).map_err(|_| ("from_target".to_string(), "from_target failed".to_string()))?.question());
+                // (what we expect to read back in the answer section)
+                enum Exp<'a> {
+                    Spec(usize),
+                    Val(&'a mc::rgen::Value),
+                }
+                let mut exp: Vec<Exp> = Vec::new();
+                let mut nq = 0;
+                if context != 2 {
+                    let (nb, _) = apply(b, Op::Q(0), sp);
+                    b = nb;
+                    nq = 1;
+                }
+                let (nb, _) = apply(b, Op::Goto(1), sp);
+                b = nb;
+                let mut plan: Vec<Option<usize>> = Vec::new(); // Some(spec) or None = the value
+                if context == 1 {
+                    plan.push(Some(1)); // NS b.a. -> c.b.a.: names to compress against
+                }
+                plan.push(None);
+                if context == 2 {
+                    plan.push(None); // the same value again: compress against itself
+                }
+                plan.push(Some(0)); // sentinel: A a.
+                for it in plan {
+                    let before = b.slice().to_vec();
+                    let rec = match it {
+                        Some(k) => sp[k].rec.clone(),
+                        None => Record::new(name(&[b"o", b"b", b"a"]), Class::IN, Ttl::from_secs(77), v.data.clone()),
+                    };
+                    let (nb, r) = push_any(b, rec);
+                    b = nb;
+                    match r {
+                        Some(true) => exp.push(match it {
+                            Some(k) => Exp::Spec(k),
+                            None => Exp::Val(v),
+                        }),
+                        Some(false) => {
+                            if b.slice() != &before[..] {
+                                return Err(("failed-push-changed-message".into(), "a refused push changed the message octets".into()));
+                            }
+                        }
+                        None => return Err(("harness".into(), "push outside a record section".into())),
+                    }
+                }
+                env.sh.transitions.fetch_add(1, AO::Relaxed);
+                let octets = b.slice();
+                let raw = read_message(octets).map_err(|e| ("unparseable".to_string(), format!("independent reader fails: {e}")))?;
+                if raw.end != octets.len() {
+                    return Err(("trailing-octets".into(), format!("{} octets after the last counted record", octets.len() - raw.end)));
+                }
+                if raw.counts.iter().map(|c| *c as usize).collect::<Vec<_>>() != vec![nq, exp.len(), 0, 0] {
+                    return Err(("header-counts".into(), format!("header counts {:?}, successful pushes [{nq}, {}, 0, 0]", raw.counts, exp.len())));
+                }
+                for (i, (r, e)) in raw.sections[0].iter().zip(&exp).enumerate() {
+                    match e {
+                        Exp::Spec(k) => {
+                            let spc = &sp[*k];
+                            let n = norm_rdata(octets, r.rtype, r.rdata_pos, &r.rdata).map_err(|e| ("rdata-unreadable".to_string(), format!("record {i} ({}): {e}", spc.label)))?;
+                            if !mc::wire::labels_eq_ci(&r.owner, &spc.owner) || r.rtype != spc.rtype || r.class != 1 || r.ttl != spc.ttl || n != spc.rdata_norm {
+                                return Err(("neighbour-record-mismatch".into(), format!("record {i} ({}) next to the value reads back differently", spc.label)));
+                            }
+                        }
+                        Exp::Val(v) => {
+                            if !mc::wire::labels_eq_ci(&r.owner, &labels(&[b"o", b"b", b"a"])) || r.rtype != v.rtype || r.class != 1 || r.ttl != 77 {
+                                return Err(("fixed-fields-mismatch".into(), format!("record {i}: owner/type/class/ttl read back as {:?}/{}/{}/{}", r.owner, r.rtype, r.class, r.ttl)));
+                            }
+                            rdata_reads_back(octets, r.rdata_pos, r.rdata.len(), v).map_err(|e| ("rdata-mismatch".to_string(), format!("record {i}: {e}")))?;
+                        }
+                    }
+                }
+                for (at, tgt) in &raw.pointers {
+                    if *tgt >= 0x4000 || tgt >= at {
+                        return Err(("bad-pointer".into(), format!("pointer at {at} -> {tgt}")));
+                    }
+                }
+                let lm = Message::from_octets(octets).map_err(|_| ("lib-short".to_string(), "Message::from_octets fails".to_string()))?;
+                for item in lm.iter() {
+                    let (r, _) = item.map_err(|e| ("lib-reader-fails".to_string(), format!("Message::iter: {e}")))?;
+                    r.to_any_record::<AllRecordData<_, domain::base::name::ParsedName<_>>>().map_err(|e| ("lib-reader-fails".to_string(), format!("to_any_record: {e}")))?;
+                }
+                if let Some(f) = cfg.stream {
+                    let s = f(b.target());
+                    if s.len() < 2 || usize::from(u16::from_be_bytes([s[0], s[1]])) != s.len() - 2 || &s[2..] != octets {
+                        return Err(("stream-shim".into(), "length prefix differs from the message length".into()));
+                    }
+                }
+                Ok(())
+            });
+            env.stats.eval();
+            let case = || json!({"config": cfg.name, "part": "every-type", "context": context, "value": v.desc, "rtype": v.rtype});
+            match res {
+                Ok(Ok(())) => {}
+                Ok(Err((kind, what))) => {
+                    // what the library's own typed reader makes of a well-formed record does not depend on the compressor
+                    let sig = if kind == "lib-reader-fails" {
+                        let class: String = what.chars().filter(|c| !c.is_ascii_digit()).take(60).collect();
+                        format!("C02|every-type|lib-reader-fails|{}|{}", v.mnemonic, class)
+                    } else {
+                        format!("C02|{}|every-type|{}|{}", comp_of(cfg.name), kind, v.mnemonic)
+                    };
+                    ctx.violation(&sig, &format!("{what} [{} in context {context} on {}]", v.desc, cfg.name), case());
+                }
+                Err(p) => {
+                    ctx.violation(&format!("C02|{}|every-type|panic|{}", comp_of(cfg.name), panic_class(&p)), &p, case());
+                }
+            }
+        }
+    });
+    env.stats.count_n(&format!("{}.every_type_cases", cfg.name), vals.len() as u64 * 3);
+}
+
 struct Env<'a> {
     sh: &'a Shared<'a>,
     stats: &'a Stats,
@@ -750,6 +909,7 @@ struct Env<'a> {
     depth: usize,
     total_tr: &'a AtomicU64,
     cfg_names: std::sync::Mutex<Vec<&'static str>>,
+    vals: &'a [mc::rgen::Value],
 }
 
 fn go<T: Composer + Clone + Send + Sync>(env: &Env, cfg: &Cfg<T>) {
@@ -777,6 +937,10 @@ fn go<T: Composer + Clone + Send + Sync>(env: &Env, cfg: &Cfg<T>) {
         env.stats.count_n(&format!("{}.pad.pushes_ok", cfg.name), sh2.pushes_ok.load(AO::Relaxed));
         env.stats.count_n(&format!("{}.pad.pushes_failed", cfg.name), sh2.pushes_err.load(AO::Relaxed));
     }
+    // part V: every record type
+    let before = env.sh.transitions.load(AO::Relaxed);
+    part_values(env, cfg, env.vals);
+    env.total_tr.fetch_add(env.sh.transitions.load(AO::Relaxed) - before, AO::Relaxed);
 }
 
 fn main() {
@@ -803,7 +967,8 @@ fn main() {
     let small_ops: Vec<Op> = ops.iter().cloned().filter(|o| !matches!(o, Op::R(6) | Op::R(7))).collect();
     let pad_ops: Vec<Op> = vec![Op::Q(0), Op::R(0), Op::R(1), Op::R(2), Op::R(4), Op::R(6), Op::R(7), Op::R(8), Op::Goto(1), Op::Goto(3), Op::Rewind, Op::Goto(0), Op::LimPlus(30), Op::PadTo(0x3FFE), Op::PadTo(0x3FFF), Op::PadTo(0x4000), Op::PadTo(0x4001)];
 
-    let env = Env { sh: &sh, stats: &stats, replay: &replay, small_ops: &small_ops, pad_ops: &pad_ops, depth, total_tr: &total_tr, cfg_names: std::sync::Mutex::new(Vec::new()) };
+    let vals = mc::rgen::values_ex(mc::rgen::Tier::Compact).0;
+    let env = Env { vals: &vals, sh: &sh, stats: &stats, replay: &replay, small_ops: &small_ops, pad_ops: &pad_ops, depth, total_tr: &total_tr, cfg_names: std::sync::Mutex::new(Vec::new()) };
     cfgs!(env);
     cfg_names = env.cfg_names.into_inner().unwrap();
     let tr = total_tr.load(AO::Relaxed);
@@ -824,6 +989,7 @@ fn main() {
             "depth": depth,
             "configurations": cfg_names,
             "alphabet": ops.iter().map(|o| format!("{:?}", o)).collect::<Vec<_>>(),
+            "every_type": {"values": vals.len(), "contexts": ["question + value + sentinel", "question + NS (names to compress against) + value + sentinel", "value + same value again + sentinel"], "rule": "every value of the shared generator's compact menu (all record types) pushed on every configuration; the independent reader checks counts, fixed fields, RDATA literal octets and every embedded name against the generator's reference wire, the neighbours, pointers, the library's reader and the stream prefix"},
             "pad_alphabet": pad_ops.iter().map(|o| format!("{:?}", o)).collect::<Vec<_>>(),
             "samples": samples,
             "counters": stats.counters_json(),
